@@ -5,7 +5,7 @@ From Coq Require Import NArith ZArith List Bool Lia.
 Import ListNotations.
 From CA Require Import Model.Lexer Model.Parser Model.Literal Model.BigIntOps Model.Evaluator Model.Matcher Model.Resolver
   Model.StaticKnown Model.ResolverS Spec.StaticSpec Proofs.EvalSemP Proofs.EvalMonoP Proofs.ResolverFixP Proofs.ResolverMonoP
-  Proofs.ResolverTopP Proofs.CertUniqueP Proofs.StaticKnownP Proofs.ResolverSSimP Proofs.ResolverSPreP Proofs.ResolverSSwitchP.
+  Proofs.ResolverTopP Proofs.CertUniqueP Proofs.StaticKnownP Proofs.ResolverSSimP Proofs.ResolverSPreP Proofs.ResolverSSwitchP Proofs.ResolverSFrameP.
 Open Scope Z_scope.
 
 (* ---------- the tables of flags ---------- *)
@@ -139,7 +139,7 @@ Lemma prepass :
   match simple_loop (S (length ns)) names ns st0 0 with
   | EErr => simple_loopS (S (length ns)) names K opt ns (init_sstate st0) 0 = EErr
   | EOk st1 => exists x1, simple_loopS (S (length ns)) names K opt ns (init_sstate st0) 0 = EOk x1 /\ ss x1 = st1 /\
-                          Inv names defs ns K opt x1 /\ labels_ok ns st1
+                          Inv names defs ns K opt x1 /\ labels_ok ns st1 /\ s_data st1 = s_data st0
   end.
 Proof.
   pose proof (pre_sim names ns K opt HKsym Hasm (fun Ho => proj1 Hcanon) (S (length ns)) (init_sstate st0) 0%nat pinv0) as H.
@@ -148,7 +148,7 @@ Proof.
   destruct H as (x1 & H1 & H2 & [P1 P2] & H4 & H5). exists x1. split; [exact H1|]. split; [exact H2|].
   assert (Hl : labels_ok ns st1).
   { eapply simple_loop_labels_ok; [exact Hdist| |exact E]. eapply init_labels_ok; exact Hinit. }
-  split; [|exact Hl].
+  cut (Inv names defs ns K opt x1 /\ s_data st1 = s_data st0); [intros [A B]; auto|].
   (* what the pre-pass leaves *)
   assert (Q : (opt = true -> good ns st1) /\ s_instr st1 = s_instr st0 /\ s_data st1 = s_data st0).
   { clear H1 H2 P1 P2 H4 H5 Hl x1.
@@ -173,7 +173,7 @@ Proof.
         + destruct (IH sta c st' Hs) as (I1 & I2 & I3); [congruence|intro Ho; left; exact (R1 Ho)|].
           split; [exact I1|]. split; congruence. }
     apply (G _ _ _ _ E); [rewrite (proj1 init_shape); apply repeat_length|]. intros _. right. lia. }
-  destruct Q as (Q1 & Q2 & Q3). subst st1.
+  destruct Q as (Q1 & Q2 & Q3). subst st1. split; [|exact Q3].
   split; [|split; [|split; [|split]]].
   - intro Ho. split; [exact (Q1 Ho)|]. eapply kinstr_same; [exact Q2|exact (kinstr0 Ho)].
   - intros i F. rewrite H4 in F. cbn [init_sstate fz_instr] in F. rewrite flag_repeat_false in F. discriminate.
@@ -182,6 +182,16 @@ Proof.
   - unfold lens. rewrite H4, H5. cbn [init_sstate fz_instr fz_data]. rewrite !repeat_length, Q2, Q3. split; [exact P2|split; reflexivity].
 Qed.
 End Top.
+
+Lemma init_data_length indexed defs nsyms ns st0 : init_state indexed defs nsyms ns = Some st0 ->
+  length (s_data st0) = length (dids ns).
+Proof.
+  unfold init_state. cbv zeta.
+  match goal with |- (if ?c then _ else _) = _ -> _ => destruct c; [discriminate|] end.
+  intro H. inversion H; subst; clear H. cbn [s_data]. unfold dids.
+  induction ns as [|n r IH]; [reflexivity|]. cbn [flat_map]. rewrite !app_length, IH. f_equal.
+  destruct n; try reflexivity. rewrite !map_length. reflexivity.
+Qed.
 
 (* ---------- whole runs ---------- *)
 Definition outF (ns : list node) (F : eres (state * nat)) : option (Z * Z * list value * nat) :=
@@ -210,6 +220,7 @@ Lemma runs :
   (forall b, assembleS ac pc opt indexed defs names ns b = None /\ assemble indexed defs names ns b = None) \/
   exists st0 x1, let K := known_info ac pc defs names ns st0 in
     Inv names defs ns K opt x1 /\ labels_ok ns (ss x1) /\
+    (forall d, In d (dids ns) -> (d < length (s_data (ss x1)))%nat) /\
     (forall i, nth_error (k_sym K) i = Some true -> exists e, In (NConst i e) ns /\ const_known e = true) /\
     (forall w elems d e, In (NData w elems) ns -> In (d, e) elems -> flag (k_data K) d = true -> data_known e = true) /\
     forall b, assembleS ac pc opt indexed defs names ns b = outT ns (loopS names defs K opt ns b 0 b x1) /\
@@ -219,8 +230,11 @@ Proof.
   destruct (init_state indexed defs (length names) ns) as [st0|] eqn:E0; [|left; auto].
   pose proof (prepass indexed defs names ns ac pc opt Hcanon Hflags Hasm Hkd st0 E0) as H.
   destruct (simple_loop (S (length ns)) names ns st0 0) as [st1|]; [|left; intro b; rewrite H; auto].
-  destruct H as (x1 & H1 & H2 & HI & Hl). right. exists st0, x1. cbv zeta. rewrite H1. subst st1.
+  destruct H as (x1 & H1 & H2 & HI & Hl & Hsd). right. exists st0, x1. cbv zeta. rewrite H1. subst st1.
   split; [exact HI|]. split; [exact Hl|].
+  split.
+  { intros d Hd. rewrite Hsd, (init_data_length _ _ _ _ _ E0). destruct Hcanon as (_ & _ & Hc & _). rewrite Hc in Hd.
+    apply in_seq in Hd. lia. }
   split; [exact (HKsym defs names ns ac pc st0)|]. split; [exact (HKdata defs names ns ac pc Hcanon st0)|].
   intro b. split; reflexivity.
 Qed.
@@ -235,7 +249,7 @@ Theorem assembleS_off ac pc indexed defs names ns b :
   assembleS ac pc false indexed defs names ns b = assemble indexed defs names ns b.
 Proof.
   intros Hres Hcanon Hok.
-  destruct (runs indexed defs names ns ac pc false Hcanon ft ft ft) as [Hn|(st0 & x1 & HI & Hl & HKs & HKd & Hb)].
+  destruct (runs indexed defs names ns ac pc false Hcanon ft ft ft) as [Hn|(st0 & x1 & HI & Hl & _ & HKs & HKd & Hb)].
   - destruct (Hn b) as [-> ->]. reflexivity.
   - destruct (Hb b) as [-> ->]. apply lockstep_out.
     apply (loop_off names defs ns _ Hres HKs HKd false Hok ft b x1 eq_refl HI).
@@ -259,32 +273,50 @@ Notation AF b := (assemble indexed defs names ns b).
 
 Lemma cases b :
   AT b = AF b \/
-  (exists o s, (1 <= b)%nat /\ AT b = Some (o, s, 1%nat) /\ (b = 1%nat -> AF b = None) /\ ((2 <= b)%nat -> AF b = Some (o, s, 2%nat))) \/
-  ((2 <= b)%nat /\ AT b = None /\ (b = 2%nat -> AF b = None)).
+  (exists o s, (1 <= b)%nat /\ AT b = Some (o, s, 1%nat) /\ (b = 1%nat -> AF b = None) /\ ((2 <= b)%nat -> AF b = Some (o, s, 2%nat)) /\
+               exists st, Certified names defs ns st /\ s = s_sym st /\ o = build_output ns st) \/
+  ((2 <= b)%nat /\ AT b = None /\ AF b = None).
 Proof.
   destruct (runs indexed defs names ns true true true Hcanon (fun _ => conj eq_refl eq_refl) (fun _ => Hasm) (fun _ => Hkd))
-    as [Hn|(st0 & x1 & HI & Hl & HKs & HKd & Hb)].
+    as [Hn|(st0 & x1 & HI & Hl & Hrange & HKs & HKd & Hb)].
   - left. destruct (Hn b) as [-> ->]. reflexivity.
   - destruct (Hb b) as [ET EF]. rewrite ET, EF. clear Hb ET EF.
     set (K := known_info true true defs names ns st0) in *.
-    assert (Hcan : true = true -> NoDup (dids ns) /\ NoDup (sids ns)).
-    { intros _. destruct Hcanon as (H1 & _ & H3 & _). split; [rewrite H3; apply seq_NoDup|exact H1]. }
+    assert (Hnd2 : NoDup (dids ns) /\ NoDup (sids ns)).
+    { destruct Hcanon as (H1 & _ & H3 & _). split; [rewrite H3; apply seq_NoDup|exact H1]. }
+    assert (Hcan : true = true -> NoDup (dids ns) /\ NoDup (sids ns)) by (intros _; exact Hnd2).
+    pose proof (canonical_distinct _ _ Hcanon) as Hd.
+    assert (FL : forall m x2, passS names defs K true true m ns x1 0 Resolved = EOk (x2, Resolved) ->
+                   pass names defs m ns (ss x2) 0 Resolved = EOk (ss x2, Resolved)).
+    { intros m x2 HT. destruct Hcanon as (H1 & _ & _ & H4).
+      exact (replay_pass names defs ns K Hres HKs HKd Hok Hnd2 Hd true m ns (fun y Hy => Hy) H1 H4 (proj1 Hnd2) x1 0 x2 HI Hl Hrange HT). }
     destruct (loop_cases names defs ns K Hres HKs HKd true Hok Hcan b x1 HI) as [L|O].
     + left. apply lockstep_out. exact L.
-    + pose proof (canonical_distinct _ _ Hcanon) as Hd.
-      pose proof O as (x2 & Hb1 & _).
+    + pose proof O as (x2 & Hb1 & HI2 & HT1 & HF1 & _).
       destruct (Nat.eq_dec b 1) as [->|Hne].
       * right. left. destruct (one_pass_b1 names defs ns K true x1 _ _ O) as [EF [x2' ET]]. rewrite EF, ET.
-        do 2 eexists. split; [lia|]. split; [reflexivity|]. split; [reflexivity|lia].
+        change (Nat.eqb 1 1) with true in HT1. pose proof (FL true x2 HT1) as Hfix.
+        destruct O as (x3 & _ & _ & HT3 & _ & HT' & _). change (Nat.eqb 1 1) with true in HT3, HT'.
+        rewrite HT1 in HT3. inversion HT3; subst x3. rewrite ET in HT'. inversion HT'; subst x2'.
+        do 2 eexists. split; [lia|]. split; [reflexivity|]. split; [reflexivity|]. split; [lia|].
+        exists (ss x2). split; [exact Hfix|]. split; reflexivity.
       * assert (Hb2 : (2 <= b)%nat) by lia.
         destruct (loopS names defs K true ns b 0 b x1) as [[x' n]|] eqn:ET.
         -- right. left.
            destruct (one_pass_fwd names defs ns K Hres HKs HKd true Hok Hcan Hd b x1 _ _ O Hl Hb2 x' n eq_refl) as [-> EF].
-           rewrite EF. cbn [outT outF]. do 2 eexists. split; [lia|]. split; [reflexivity|]. split; [lia|reflexivity].
-        -- right. right. split; [exact Hb2|]. split; [reflexivity|]. intros ->.
-           destruct (loop names defs ns 2 0 2 (ss x1)) as [[st n]|] eqn:EF; [|reflexivity].
-           destruct (one_pass_bwd2 names defs ns K Hres HKs HKd true Hok Hcan x1 _ _ O st n eq_refl) as [_ (x' & ET' & _)].
-           discriminate ET'.
+           destruct (certificate names defs ns b (ss x1) (ss x') 2%nat Hd Hl EF) as [Hc _].
+           rewrite EF. cbn [outT outF]. do 2 eexists. split; [lia|]. split; [reflexivity|]. split; [lia|]. split; [reflexivity|].
+           exists (ss x'). split; [exact Hc|]. split; reflexivity.
+        -- right. right. split; [exact Hb2|]. split; [reflexivity|].
+           destruct (loop names defs ns b 0 b (ss x1)) as [[st n]|] eqn:EF; [|reflexivity]. exfalso.
+           destruct (Nat.eq_dec b 2) as [->|Hne2].
+           ++ destruct (one_pass_bwd2 names defs ns K Hres HKs HKd true Hok Hcan x1 _ _ O st n eq_refl) as [_ (x' & ET' & _)].
+              discriminate ET'.
+           ++ assert (Hb3 : (3 <= b)%nat) by lia.
+              assert (E1 : Nat.eqb 1 b = false) by (apply Nat.eqb_neq; lia).
+              pose proof (one_pass_ge3 names defs ns K Hres HKs HKd true Hok Hcan b x1 _ _ O Hb3) as G. cbv beta iota in G.
+              destruct G as [_ (x' & ET' & _)]; [|discriminate ET'].
+              intros x3 HT3 _. exact (FL false x3 HT3).
 Qed.
 End Switch.
 
@@ -305,14 +337,15 @@ Notation OFF b := (assembleS true true false indexed defs names ns b).
 
 Theorem static_switch_cases b :
   ON b = OFF b \/
-  (exists o s, (1 <= b)%nat /\ ON b = Some (o, s, 1%nat) /\ (b = 1%nat -> OFF b = None) /\ ((2 <= b)%nat -> OFF b = Some (o, s, 2%nat))) \/
-  ((2 <= b)%nat /\ ON b = None /\ (b = 2%nat -> OFF b = None)).
+  (exists o s, (1 <= b)%nat /\ ON b = Some (o, s, 1%nat) /\ (b = 1%nat -> OFF b = None) /\ ((2 <= b)%nat -> OFF b = Some (o, s, 2%nat)) /\
+               exists st, Certified names defs ns st /\ s = s_sym st /\ o = build_output ns st) \/
+  ((2 <= b)%nat /\ ON b = None /\ OFF b = None).
 Proof. rewrite (assembleS_off true true indexed defs names ns b Hres Hcanon Hok). apply cases; assumption. Qed.
 
 Theorem static_switch_same_result b o s n o' s' n' :
   ON b = Some (o, s, n) -> OFF b = Some (o', s', n') -> o = o' /\ s = s' /\ counts_ok n n'.
 Proof.
-  intros H1 H2. destruct (static_switch_cases b) as [E|[(o0 & s0 & Hb & E1 & E2 & E3)|(Hb & E1 & _)]].
+  intros H1 H2. destruct (static_switch_cases b) as [E|[(o0 & s0 & Hb & E1 & E2 & E3 & _)|(Hb & E1 & _)]].
   - rewrite E, H2 in H1. inversion H1; subst. repeat split. now left.
   - rewrite E1 in H1. inversion H1; subst o0 s0 n. destruct (Nat.eq_dec b 1) as [->|Hne].
     + rewrite (E2 eq_refl) in H2. discriminate.
@@ -323,21 +356,29 @@ Qed.
 Theorem static_switch_fwd b o s n : (2 <= b)%nat ->
   ON b = Some (o, s, n) -> exists n', OFF b = Some (o, s, n') /\ counts_ok n n'.
 Proof.
-  intros Hb H1. destruct (static_switch_cases b) as [E|[(o0 & s0 & _ & E1 & _ & E3)|(_ & E1 & _)]].
+  intros Hb H1. destruct (static_switch_cases b) as [E|[(o0 & s0 & _ & E1 & _ & E3 & _)|(_ & E1 & _)]].
   - exists n. rewrite <- E. split; [exact H1|now left].
   - rewrite E1 in H1. inversion H1; subst o0 s0 n. exists 2%nat. split; [exact (E3 Hb)|right; auto].
   - rewrite E1 in H1. discriminate.
 Qed.
 
-Theorem static_switch_bwd_partial b o s n' : (b <= 2)%nat ->
+Theorem static_switch_bwd b o s n' :
   OFF b = Some (o, s, n') -> exists n, ON b = Some (o, s, n) /\ counts_ok n n'.
 Proof.
-  intros Hb H2. destruct (static_switch_cases b) as [E|[(o0 & s0 & Hb1 & E1 & E2 & E3)|(Hb2 & E1 & E2)]].
+  intros H2. destruct (static_switch_cases b) as [E|[(o0 & s0 & Hb1 & E1 & E2 & E3 & _)|(Hb2 & E1 & E2)]].
   - exists n'. rewrite E. split; [exact H2|now left].
   - destruct (Nat.eq_dec b 1) as [->|Hne].
     + rewrite (E2 eq_refl) in H2. discriminate.
     + rewrite E3 in H2 by lia. inversion H2; subst. exists 1%nat. split; [exact E1|right; auto].
-  - assert (b = 2%nat) by lia. subst b. rewrite (E2 eq_refl) in H2. discriminate.
+  - rewrite E2 in H2. discriminate.
+Qed.
+
+(* for budgets >= 2 the same programs succeed *)
+Theorem static_switch_success b : (2 <= b)%nat -> (ON b = None <-> OFF b = None).
+Proof.
+  intro Hb. split; intro H.
+  - destruct (OFF b) as [[[o s] n']|] eqn:E; [|reflexivity]. destruct (static_switch_bwd b o s n' E) as [n [E' _]]. congruence.
+  - destruct (ON b) as [[[o s] n]|] eqn:E; [|reflexivity]. destruct (static_switch_fwd b o s n Hb E) as [n' [E' _]]. congruence.
 Qed.
 
 Theorem static_switch_budget1 o s n :
@@ -347,6 +388,18 @@ Proof.
   - left. rewrite <- E. exact H1.
   - right. rewrite E1 in H1. inversion H1; subst. split; [reflexivity|exact (E2 eq_refl)].
   - lia.
+Qed.
+
+(* every success of the optimised run carries the certificate of C02: its final state is a fixed point of the strict,
+   unoptimised pass, from which the output is built *)
+Theorem static_on_certified b o s n :
+  ON b = Some (o, s, n) -> exists st, Certified names defs ns st /\ s = s_sym st /\ o = build_output ns st.
+Proof.
+  intro H1. destruct (static_switch_cases b) as [E|[(o0 & s0 & _ & E1 & _ & _ & Hc)|(_ & E1 & _)]].
+  - rewrite E, (assembleS_off true true indexed defs names ns b Hres Hcanon Hok) in H1.
+    destruct (assemble_certificate _ _ _ _ _ _ _ _ (canonical_distinct _ _ Hcanon) H1) as (st & Hc & Hs & Ho & _). eauto.
+  - rewrite E1 in H1. inversion H1; subst. exact Hc.
+  - rewrite E1 in H1. discriminate.
 Qed.
 End SwitchStatements.
 
